@@ -49,16 +49,19 @@ def r1_exposure(ctx, F):
                 if owner.self_adt == IOB or "IoBuffers" in (owner.self_ty or ""):
                     users.add(owner.name)
     allowed = {"allocate_file_volatile_slice", "prepare_io_buf", "prepare_mut_io_buf"}
+    merged = not [x for x in F.find(name="allocate_file_volatile_slice", self_adt=IOB)]      # the allocator merged back into its only caller
+    if merged:
+        allowed = allowed | {"consume"}
     for u in sorted(users):
         ctx.check("R1-raw-exposure", u, u in allowed, "IoBuffers::%s exposes chain slices as raw memory; only %s may" % (u, sorted(allowed)))
-    ctx.check("R1-raw-exposure", "allocator", "allocate_file_volatile_slice" in users, "the slice allocator was not found")
+    ctx.check("R1-raw-exposure", "allocator", "allocate_file_volatile_slice" in users or (merged and "consume" in users), "the slice allocator was not found")
     # who calls the allocator: only consume()
     callers = set()
     for k, b in F.fns.items():
         for c in live_calls(b):
             if c.name == "allocate_file_volatile_slice":
                 callers.add(b.name if b.kind != "closure" else F.fns[b.owner].name)
-    ctx.check("R1-raw-exposure", "allocator-callers", callers == {"consume"}, "allocate_file_volatile_slice is called by %s; only consume (which does the dirty/used accounting) may" % sorted(callers))
+    ctx.check("R1-raw-exposure", "allocator-callers", callers == {"consume"} or (merged and not callers), "allocate_file_volatile_slice is called by %s; only consume (which does the dirty/used accounting) may" % sorted(callers))
 
 
 def r2_amount(ctx, F):
